@@ -512,6 +512,7 @@ class Translator:
             (r'^Range::is_empty$', 'rt_range_is_empty'),
             (r'^<Range<usize> as ExactSizeIterator>::len$', 'rt_range_len'),
             (r'^<Range<usize> as Iterator>::next$', 'rt_range_next'),
+            (r'^<(Range<usize>|usize|bool) as Clone>::clone$', 'rt_deref_ptr'),
             (r'^<Range<usize> as DoubleEndedIterator>::next_back$', 'rt_range_next_back'),
             (r'^<usize as Ord>::cmp$', 'rt_cmp_usize'),
             (r'^<Option<.*> as Try>::branch$', 'TRY_BRANCH'),
